@@ -98,6 +98,12 @@ ENGINES = [
         "kind_free_text": "TLC model-checks the registry of hash expressions behind the storage-slot decoding (ids, block-aligned reverse lookup, copies), refutes three design mutations and enumerates operation histories that are replayed into halmos' KeccakRegistry / OffsetMap with all lookup tables compared",
     },
     {
+        "name": "main-run-model",
+        "path": "spec/MainRun.tla spec/MC_MainRun_*.cfg harness/mainrun_replay.py checks/c05.py checks/c10.py",
+        "serves_properties": ["C05", "C10"],
+        "kind_free_text": "TLC model-checks halmos._main (contract and function selection, one process over several contracts, setUp failures, the once-only logger, the process exit code), refutes three design mutations and prints all 288 terminal states (projects x selections x --depth), which are replayed through the real _main on hand-assembled artifacts",
+    },
+    {
         "name": "word-tables",
         "path": "spec/EvmWord.tla spec/EvmWordNat.tla spec/WordRefine.tla spec/WordTable.tla harness/wordops.py harness/progs_ops.py checks/c06.py",
         "serves_properties": ["C06"],
